@@ -76,6 +76,7 @@ def attempt(fn):
 
 def run_case(c):
     from dataclass_wizard import asdict, fromdict
+    rt.fresh_typing_caches()
     reg = rt.Reg()
     out = {}
     try:
@@ -86,11 +87,13 @@ def run_case(c):
         rt.bind_meta(cls, meta)
         x = rt.build_value(c['value'], reg)
         out['coq_t'] = rt.coq_ty(c['root'], reg)
+        out['f56'] = rt.has_f56(cls)
     except BaseException as e:
         out['setup_err'] = err_info(e); out['setup_err']['tb'] = traceback.format_exc()[-800:]
         return out
     out['coq_v'] = rt.coq_pv(x, reg, old=False)
     out['lets'] = reg.lets
+    out['alias_reordered'] = reg.alias_reordered
     out['show_x'] = rt.show(x, reg)
     out['classes'] = ['c%d' % info['id'] for cl, info in reg.info.items() if info['kind'] == 'data']
     toks = []
